@@ -102,8 +102,11 @@ def gen_cases(tier, seed):
                 # index cases left to the library (rho, or the default single node), with or without initially recovered nodes:
                 # the draw comes from the seeded generators only
                 c['rho'] = r.choice([0.15, 0.3])
-                if sim in simreg.SIR_SIMS and not c.get('R0'):
-                    c['R0'] = [c['graph']['n'] - 1]
+                if sim in simreg.SIR_SIMS:
+                    # initial_recovereds given as an (empty) collection: with a non-empty one the library may draw a recovered node as
+                    # index case (its docstring: no test for consistency) and the run is then ill-defined - it can even fail to end
+                    c['R0'] = []
+                    c['R0_explicit_empty'] = True
             batch.append(c)
         out.append({'kind': 'hash', 'batch': batch, 'hashseeds': list(range(3)) if q else [0, 1, 2, 3, 5, 7, 11, 13, 17, 19, 23, 29, 31, 37, 41, 43, 47, 53, 59, 61, 67, 71, 73, 79],
                     'seed': cs})
